@@ -60,14 +60,44 @@ func dataOf(el map[string]interface{}) (map[string]interface{}, bool) {
 	return d, ok
 }
 
-func faultKinds() []faultKind {
+// faultKinds: shape faults rewrite the (skip+1)-th place of the answer they apply to (the last
+// one when there are fewer).
+func faultKinds(skip int) []faultKind {
 	shape := func(name string, mut func(parent map[string]interface{}, key string, val interface{}) bool) faultKind {
 		return faultKind{name: name, elem: func(el map[string]interface{}) (map[string]interface{}, bool) {
 			d, ok := dataOf(el)
 			if !ok {
 				return el, false
 			}
-			done := walkJSON(d, mut)
+			// count the places without rewriting (mut rewrites what it matches: probe on a copy)
+			matches := func(k string, v interface{}) bool {
+				probe := map[string]interface{}{k: deepCopyJSON(v)}
+				return mut(probe, k, probe[k])
+			}
+			places := 0
+			walkJSON(d, func(p map[string]interface{}, k string, v interface{}) bool {
+				if matches(k, v) {
+					places++
+				}
+				return false
+			})
+			if places == 0 {
+				return el, false
+			}
+			want, seen := skip, 0
+			if want >= places {
+				want = places - 1
+			}
+			done := walkJSON(d, func(p map[string]interface{}, k string, v interface{}) bool {
+				if !matches(k, v) {
+					return false
+				}
+				if seen < want {
+					seen++
+					return false
+				}
+				return mut(p, k, v)
+			})
 			return el, done
 		}}
 	}
@@ -137,6 +167,13 @@ func faultKinds() []faultKind {
 		shape("list-where-object-declared", func(p map[string]interface{}, k string, v interface{}) bool {
 			if _, ok := v.(map[string]interface{}); ok && k != "node" {
 				p[k] = []interface{}{v}
+				return true
+			}
+			return false
+		}),
+		shape("empty-list-where-object-declared", func(p map[string]interface{}, k string, v interface{}) bool {
+			if _, ok := v.(map[string]interface{}); ok && k != "node" {
+				p[k] = []interface{}{}
 				return true
 			}
 			return false
@@ -251,7 +288,7 @@ func scenFLT(s *sched.Sim, cfg Config, res *Result) {
 	}
 	op := gql.GenOp(s.T, w, w.Union, kindOp, of, 4, 16)
 	clean := gql.GenOp(s.T, w, w.Union, ast.Query, of, 3, 10)
-	kinds := faultKinds()
+	kinds := faultKinds(s.T.Choose(4))
 	on, off := parseFeat(cfg.Features)
 	_ = on
 	var target *fltTarget
